@@ -169,16 +169,58 @@ Proof.
     + cbn [append] in C. destruct b; [|discriminate C]. now apply H4.
 Qed.
 
+(** * normalised components are plain *)
+Definition base_ok (c : string) : Prop := c <> "" /\ c <> "." /\ contains_char sep c = false.
+
+Lemma split_no_sep_all s : Forall (fun c => contains_char sep c = false) (split_char sep s).
+Proof.
+  induction s as [|a s IH]; simpl; [repeat constructor|].
+  destruct (Ascii.eqb a sep) eqn:E; [constructor; [reflexivity | exact IH]|].
+  destruct (split_char sep s) as [|x l]; [repeat constructor; simpl; now rewrite E|].
+  inversion IH as [|? ? Hx Hl]; subst. constructor; [simpl; now rewrite E, Hx | exact Hl].
+Qed.
+
+Lemma raw_comps_ok s : Forall base_ok (raw_comps s).
+Proof.
+  unfold raw_comps. pose proof (split_no_sep_all s) as H. change "/"%char with sep.
+  induction (split_char sep s) as [|c l IH]; [constructor|].
+  inversion H as [|? ? Hc Hl]; subst. cbn [filter].
+  destruct (String.eqb c "") eqn:E1; cbn [negb andb]; [now apply IH|].
+  destruct (String.eqb c ".") eqn:E2; cbn [negb]; [now apply IH|].
+  constructor; [|now apply IH]. apply String.eqb_neq in E1, E2. repeat split; assumption.
+Qed.
+
+Lemma comps_okb_snoc acc c : comps_okb acc = true -> comp_okb c = true -> comps_okb (acc ++ [c]) = true.
+Proof. intros A C. rewrite comps_okb_app, A. simpl. now rewrite C. Qed.
+
+Lemma removelast_ok acc : comps_okb acc = true -> comps_okb (removelast acc) = true.
+Proof.
+  induction acc as [|a [|b l] IH]; intros H; try reflexivity.
+  cbn [removelast]. cbn [comps_okb forallb] in *. apply andb_true_iff in H. destruct H as [Ha Hl].
+  rewrite Ha. now apply IH.
+Qed.
+
+Lemma resolve_ok l : Forall base_ok l -> comps_okb (resolve l) = true.
+Proof.
+  unfold resolve. assert (G : forall acc, comps_okb acc = true -> Forall base_ok l ->
+    comps_okb (fold_left (fun acc c => if String.eqb c ".." then removelast acc else acc ++ [c]) l acc) = true).
+  { induction l as [|c l IH]; intros acc A H; [exact A|]. inversion H as [|? ? Hc Hl]; subst.
+    cbn [fold_left]. destruct (String.eqb c "..") eqn:E.
+    - apply IH; [now apply removelast_ok | exact Hl].
+    - apply IH; [|exact Hl]. apply comps_okb_snoc; [exact A|].
+      destruct Hc as (H1 & H2 & H3). unfold comp_okb.
+      apply String.eqb_neq in H1, H2. change "/"%char with sep. now rewrite H1, H2, H3, E. }
+  intros H. now apply G.
+Qed.
+
+Lemma abs_comps_ok cwd start : comps_okb (abs_comps cwd start) = true.
+Proof.
+  unfold abs_comps, comps_of. destruct (starts_with "/" start); apply resolve_ok.
+  - apply raw_comps_ok.
+  - apply Forall_app. split; apply raw_comps_ok.
+Qed.
+
 (** * the walk *)
-Fixpoint anc_noroot (comps : list string) (k : nat) : list (list string) :=
-  match k with
-  | O => []
-  | S k' => firstn k comps :: anc_noroot comps k'
-  end.
-
-Lemma ancestors_from_split comps k : ancestors_from comps k = anc_noroot comps k ++ [[]].
-Proof. induction k as [|k IH]; simpl; [reflexivity | now rewrite IH]. Qed.
-
 Lemma first_candidate_app fs name l1 l2 :
   first_candidate fs name (l1 ++ l2) =
   match first_candidate fs name l1 with
@@ -201,7 +243,7 @@ Definition finish (cwd : string) (r : find_res) : load_res :=
   | FNotFound => NotFound
   end.
 
-Lemma load_finish fs cwd name start : load fs cwd name start = finish cwd (LoaderModel.find fs name start).
+Lemma load_finish fs cwd name start : load fs cwd name start = finish cwd (LoaderModel.find fs cwd name start).
 Proof. reflexivity. Qed.
 
 Definition to_loaded (c : option (string * string)) : load_res :=
@@ -219,49 +261,118 @@ Qed.
 Lemma firstn_S_nonempty {A} (l : list A) k : l <> [] -> firstn (S k) l <> [].
 Proof. destruct l; [congruence | discriminate]. Qed.
 
-Lemma walk_abs fs cwd name comps :
-  comps <> [] -> comps_okb comps = true -> comp_okb name = true ->
-  listdir fs "" = None ->
-  forall k, k <= List.length comps ->
-    forallb (fun d => match listdir fs (dir_str d) with Some _ => true | None => false end)
-            (anc_noroot comps k) = true ->
-    finish cwd (walk fs name ("" :: comps) (S k)) =
-    to_loaded (first_candidate fs name (anc_noroot comps k)).
+Lemma child_root n : child "/" n = dir_str [n].
+Proof. reflexivity. Qed.
+
+Lemma abs_location_dir cwd d : abs_location cwd (dir_str d) = dir_str d.
+Proof. reflexivity. Qed.
+
+Lemma path_parent_root n : comp_okb n = true -> path_parent (dir_str [n]) = "/".
 Proof.
-  intros Hne Hok Hname Hempty. induction k as [|k IH]; intros Hk Hl.
-  - cbn [walk firstn]. change (join "/" [""]) with "". now rewrite Hempty.
-  - cbn [anc_noroot forallb] in Hl. apply andb_true_iff in Hl. destruct Hl as [Hd Hl].
+  intros Hn. unfold path_parent. rewrite split_dir_str by (discriminate || (simpl; now rewrite Hn)).
+  cbn [filter]. change (not_dot "") with true. cbv iota.
+  destruct (comp_okb_dots _ Hn) as [Hd _]. apply String.eqb_neq in Hd. unfold not_dot. rewrite Hd.
+  reflexivity.
+Qed.
+
+(** what the loop body does at a directory equals the specification's [candidate] *)
+Lemma body_at fs cwd name d rest :
+  comps_okb d = true -> comp_okb name = true ->
+  (forall es, listdir fs (dir_str d) = Some es ->
+     finish cwd
+       (if mem (name ++ ".py") es then FSpec (path_join (dir_str d) (name ++ ".py")) false
+        else if mem name es && path_exists fs (path_join (path_join (dir_str d) name) "__init__.py")
+        then FSpec (path_join (path_join (dir_str d) name) "__init__.py") true
+        else rest)
+     = match candidate fs name (dir_str d) with
+       | Some c => to_loaded (Some c)
+       | None => finish cwd rest
+       end).
+Proof.
+  intros Hdok Hname es Hl. unfold candidate. rewrite Hl.
+  assert (Hpy : comp_okb (name ++ ".py") = true) by now apply comp_okb_app.
+  assert (Hinit : comp_okb "__init__.py" = true) by reflexivity.
+  destruct d as [|x l].
+  - (* the root *)
+    change (dir_str []) with "/". change (path_join "/" (name ++ ".py")) with (child "/" (name ++ ".py")).
+    change (path_join "/" name) with (child "/" name).
+    assert (Ok1 : comps_okb [name] = true) by (simpl; now rewrite Hname).
+    rewrite !child_root. rewrite (path_join_child [name]) by (discriminate || assumption).
+    destruct (mem (name ++ ".py") es).
+    + cbn [finish to_loaded]. now rewrite abs_location_dir, path_parent_root.
+    + destruct (mem name es && path_exists fs (child (dir_str [name]) "__init__.py")); [|reflexivity].
+      cbn [finish to_loaded]. rewrite (child_dir_str [name]) by (discriminate || assumption).
+      rewrite abs_location_dir. rewrite <- (child_dir_str [name]) by (discriminate || assumption).
+      rewrite path_parent_child by (discriminate || assumption). now rewrite path_parent_root.
+  - (* below the root: as before *)
+    set (d := x :: l) in *. assert (Hdne : d <> []) by discriminate.
+    rewrite !path_join_child by assumption.
+    destruct (mem (name ++ ".py") es).
+    + cbn [finish to_loaded].
+      assert (Ha : abs_location cwd (child (dir_str d) (name ++ ".py")) = child (dir_str d) (name ++ ".py")).
+      { unfold abs_location. rewrite child_dir_str by assumption. reflexivity. }
+      now rewrite Ha, path_parent_child.
+    + assert (Hd2ne : d ++ [name] <> []) by discriminate.
+      assert (Hd2ok : comps_okb (d ++ [name]) = true) by (rewrite comps_okb_app, Hdok; simpl; now rewrite Hname).
+      rewrite (child_dir_str d name) by assumption.
+      rewrite (path_join_child (d ++ [name])) by assumption.
+      destruct (mem name es && path_exists fs (child (dir_str (d ++ [name])) "__init__.py")); [|reflexivity].
+      cbn [finish to_loaded].
+      assert (Ha : abs_location cwd (child (dir_str (d ++ [name])) "__init__.py") =
+                   child (dir_str (d ++ [name])) "__init__.py").
+      { unfold abs_location. rewrite child_dir_str by assumption. reflexivity. }
+      rewrite Ha, path_parent_child by assumption.
+      rewrite <- (child_dir_str d name) by assumption.
+      now rewrite path_parent_child.
+Qed.
+
+Lemma walk_S fs name paths x :
+  walk fs name paths (S x) =
+  (let j := join "/" (firstn (S x) paths) in
+   let path := if String.eqb j "" then "/" else j in
+   match listdir fs path with
+   | None => FNotFound
+   | Some entries =>
+       if mem (name ++ ".py") entries then FSpec (path_join path (name ++ ".py")) false
+       else if mem name entries && path_exists fs (path_join (path_join path name) "__init__.py")
+       then FSpec (path_join (path_join path name) "__init__.py") true
+       else walk fs name paths x
+   end).
+Proof. reflexivity. Qed.
+
+Definition listable (fs : fsys) (d : list string) : bool :=
+  match listdir fs (dir_str d) with Some _ => true | None => false end.
+
+(** from x = k+1 the loop visits firstn k comps, ..., firstn 1 comps, the root *)
+Lemma walk_from fs cwd name comps :
+  comps_okb comps = true -> comp_okb name = true ->
+  forall k, k <= List.length comps ->
+    forallb (listable fs) (ancestors_from comps k) = true ->
+    finish cwd (walk fs name ("" :: comps) (S k)) =
+    to_loaded (first_candidate fs name (ancestors_from comps k)).
+Proof.
+  intros Hok Hname. induction k as [|k IH]; intros Hk Hl.
+  - cbn [walk firstn ancestors_from first_candidate]. change (join "/" [""]) with "". cbn [String.eqb].
+    cbn [ancestors_from forallb] in Hl. rewrite andb_true_r in Hl. unfold listable in Hl.
+    change (dir_str []) with "/" in *.
+    destruct (listdir fs "/") as [es|] eqn:El; [|discriminate].
+    pose proof (body_at fs cwd name [] FNotFound eq_refl Hname es El) as B.
+    change (dir_str []) with "/" in B. rewrite B.
+    destruct (candidate fs name "/") as [[f p]|]; reflexivity.
+  - cbn [ancestors_from forallb] in Hl. apply andb_true_iff in Hl. destruct Hl as [Hd Hl].
     set (d := firstn (S k) comps) in *.
+    assert (Hcne : comps <> []) by (destruct comps; [simpl in Hk; lia | discriminate]).
     assert (Hdne : d <> []) by now apply firstn_S_nonempty.
     assert (Hdok : comps_okb d = true) by now apply firstn_ok.
     assert (Hpath : join "/" (firstn (S (S k)) ("" :: comps)) = dir_str d).
     { change (firstn (S (S k)) ("" :: comps)) with ("" :: firstn (S k) comps). now apply join_root_cons. }
-    assert (Hpy : comp_okb (name ++ ".py") = true) by now apply comp_okb_app.
-    assert (Hinit : comp_okb "__init__.py" = true) by reflexivity.
-    cbn [anc_noroot first_candidate]. fold d.
-    remember (S k) as k1. cbn [walk]. rewrite Hpath. unfold candidate.
-    destruct (listdir fs (dir_str d)) as [es|]; [|discriminate].
-    rewrite !path_join_child by assumption.
-    destruct (mem (name ++ ".py") es).
-    + cbn [finish to_loaded]. destruct (dir_str_facts d Hdne Hdok) as (_ & _ & _ & Hs).
-      assert (Ha : abs_location cwd (child (dir_str d) (name ++ ".py")) = child (dir_str d) (name ++ ".py")).
-      { unfold abs_location. rewrite child_dir_str by assumption.
-        unfold dir_str at 1. reflexivity. }
-      rewrite Ha, path_parent_child by assumption. reflexivity.
-    + assert (Hd2ne : d ++ [name] <> []) by (destruct d; discriminate).
-      assert (Hd2ok : comps_okb (d ++ [name]) = true).
-      { rewrite comps_okb_app, Hdok. simpl. now rewrite Hname. }
-      rewrite (child_dir_str d name) by assumption.
-      rewrite (path_join_child (d ++ [name])) by assumption.
-      destruct (mem name es && path_exists fs (child (dir_str (d ++ [name])) "__init__.py")).
-      * cbn [finish to_loaded].
-        assert (Ha : abs_location cwd (child (dir_str (d ++ [name])) "__init__.py") =
-                     child (dir_str (d ++ [name])) "__init__.py").
-        { unfold abs_location. rewrite child_dir_str by assumption. unfold dir_str at 1. reflexivity. }
-        rewrite Ha, path_parent_child by assumption.
-        rewrite <- (child_dir_str d name) by assumption.
-        rewrite path_parent_child by assumption. reflexivity.
-      * subst k1. apply IH; [lia | exact Hl].
+    cbn [ancestors_from first_candidate]. fold d.
+    remember (S k) as k1. cbn [walk]. rewrite Hpath.
+    destruct (dir_str_facts d Hdne Hdok) as (Hne & _). rewrite Hne.
+    unfold listable in Hd. destruct (listdir fs (dir_str d)) as [es|] eqn:El; [|discriminate].
+    rewrite (body_at fs cwd name d (walk fs name ("" :: comps) k1) Hdok Hname es El).
+    destruct (candidate fs name (dir_str d)) as [c|]; [reflexivity|].
+    subst k1. apply IH; [lia | exact Hl].
 Qed.
 
 (** * the property-level statements *)
@@ -272,139 +383,83 @@ Definition obs_of (r : load_res) : observed :=
   | ImportErr => OImportError
   end.
 
-Lemma guard_abs_parts fs comps name : guard_abs fs comps name = true ->
-  comps <> [] /\ comps_okb comps = true /\ comp_okb name = true /\ listdir fs "" = None /\
-  all_listable fs comps = true.
+Lemma guard_exists_parts fs cwd start name : guard_exists fs cwd start name = true ->
+  comp_okb name = true /\ all_listable fs (abs_comps cwd start) = true.
+Proof. unfold guard_exists. intros H. now apply andb_true_iff in H. Qed.
+
+(** nearest ancestor wins, the root included, for every start path (absolute
+    or relative, with "." / ".." / trailing separators) that exists *)
+Theorem nearest fs cwd name start :
+  guard_exists fs cwd start name = true ->
+  load fs cwd name start = to_loaded (expected fs name (abs_comps cwd start)).
 Proof.
-  unfold guard_abs. intros H.
-  repeat (apply andb_true_iff in H; destruct H as [H ?]).
-  repeat split; try assumption.
-  - destruct comps; [discriminate | discriminate].
-  - destruct (listdir fs ""); [discriminate | reflexivity].
+  intros G. destruct (guard_exists_parts _ _ _ _ G) as [Hname Hl].
+  set (comps := abs_comps cwd start) in *.
+  pose proof (abs_comps_ok cwd start) as Hok. fold comps in Hok.
+  rewrite load_finish. unfold LoaderModel.find, abspath. fold comps.
+  unfold expected, ancestors. unfold all_listable, ancestors in Hl.
+  destruct comps as [|x l] eqn:Ec.
+  - (* the start is the root: paths = ["", ""] *)
+    change (split_char sep (dir_str [])) with ["" ; ""]. cbn [List.length ancestors_from first_candidate].
+    cbn [List.length ancestors_from forallb] in Hl. rewrite andb_true_r in Hl.
+    change (dir_str []) with "/" in *.
+    destruct (listdir fs "/") as [es|] eqn:El; [|discriminate].
+    rewrite walk_S. cbn [firstn]. change (join "/" [""; ""]) with "/". cbv zeta. cbn [String.eqb]. rewrite El.
+    pose proof (body_at fs cwd name [] (walk fs name [""; ""] 1) eq_refl Hname es El) as B.
+    change (dir_str []) with "/" in B. rewrite B.
+    destruct (candidate fs name "/") as [[f p]|] eqn:Cand; [reflexivity|].
+    (* second visit of "/" finds nothing either *)
+    rewrite walk_S. cbn [firstn]. change (join "/" [""]) with "". cbv zeta. cbn [String.eqb]. rewrite El.
+    pose proof (body_at fs cwd name [] (walk fs name [""; ""] 0) eq_refl Hname es El) as B2.
+    change (dir_str []) with "/" in B2. rewrite B2, Cand. reflexivity.
+  - rewrite split_dir_str by (discriminate || assumption). cbn [List.length].
+    apply (walk_from fs cwd name (x :: l) Hok Hname (List.length (x :: l))); [lia | exact Hl].
 Qed.
 
-Theorem load_abs fs cwd name comps :
-  guard_abs fs comps name = true ->
-  load fs cwd name (dir_str comps) =
-  to_loaded (first_candidate fs name (anc_noroot comps (List.length comps))).
+(** flagship: the model meets the executable specification *)
+Theorem spec_full fs cwd name start :
+  guard_exists fs cwd start name = true ->
+  spec_ok fs cwd start name (obs_of (load fs cwd name start)) = true.
 Proof.
-  intros G. destruct (guard_abs_parts _ _ _ G) as (Hne & Hok & Hname & Hempty & Hl).
-  rewrite load_finish. unfold LoaderModel.find. rewrite split_dir_str by assumption.
-  cbn [List.length]. apply walk_abs; auto.
-  unfold all_listable, ancestors in Hl. rewrite ancestors_from_split, forallb_app in Hl.
-  now apply andb_true_iff in Hl.
-Qed.
-
-Lemma expected_split fs name comps :
-  expected fs name comps =
-  match first_candidate fs name (anc_noroot comps (List.length comps)) with
-  | Some c => Some c
-  | None => candidate fs name "/"
-  end.
-Proof.
-  unfold expected, ancestors. rewrite ancestors_from_split, first_candidate_app.
-  destruct (first_candidate fs name (anc_noroot comps (List.length comps))); [reflexivity|].
-  cbn [first_candidate]. change (dir_str []) with "/". now destruct (candidate fs name "/").
-Qed.
-
-(** nearest ancestor wins -- missing for full strength: a candidate in "/" *)
-Theorem nearest_partial fs cwd name comps :
-  guard_abs fs comps name = true -> root_clear fs name = true ->
-  load fs cwd name (dir_str comps) = to_loaded (expected fs name comps).
-Proof.
-  intros G R. rewrite (load_abs _ _ _ _ G), expected_split.
-  destruct (first_candidate fs name (anc_noroot comps (List.length comps))); [reflexivity|].
-  unfold root_clear in R. now destruct (candidate fs name "/").
-Qed.
-
-Lemma resolve_plain : forall l acc,
-  comps_okb l = true ->
-  fold_left (fun acc c => if String.eqb c ".." then removelast acc else acc ++ [c]) l acc = acc ++ l.
-Proof.
-  induction l as [|c l IH]; intros acc H; [now rewrite app_nil_r|].
-  cbn [comps_okb forallb] in H. apply andb_true_iff in H. destruct H as [Hc Hl].
-  destruct (comp_okb_dots c Hc) as [_ Hd]. apply String.eqb_neq in Hd.
-  cbn [fold_left]. rewrite Hd, (IH _ Hl), <- app_assoc. reflexivity.
-Qed.
-
-Lemma comps_of_dir_str comps : comps <> [] -> comps_okb comps = true -> comps_of (dir_str comps) = comps.
-Proof.
-  intros Hne Hok. unfold comps_of, raw_comps. change "/"%char with sep. rewrite split_dir_str by assumption.
-  cbn [filter String.eqb negb andb].
-  assert (F : filter (fun c => negb (String.eqb c "") && negb (String.eqb c ".")) comps = comps).
-  { clear Hne. induction comps as [|x l IH]; [reflexivity|].
-    cbn [comps_okb forallb] in Hok. apply andb_true_iff in Hok. destruct Hok as [Hx Hl].
-    destruct (comp_okb_prop _ Hx) as [Hx1 _]. destruct (comp_okb_dots _ Hx) as [Hx2 _].
-    apply String.eqb_neq in Hx1, Hx2. cbn [filter]. rewrite Hx1, Hx2. cbn [negb andb]. f_equal. now apply IH. }
-  rewrite F. unfold resolve. now rewrite resolve_plain.
-Qed.
-
-(** flagship: the model meets the executable specification on the guarded region *)
-Theorem spec_partial fs cwd name comps :
-  guard_abs fs comps name = true -> root_clear fs name = true ->
-  spec_ok fs cwd (dir_str comps) name (obs_of (load fs cwd name (dir_str comps))) = true.
-Proof.
-  intros G R. rewrite (nearest_partial _ _ _ _ G R).
-  destruct (guard_abs_parts _ _ _ G) as (Hne & Hok & _).
-  unfold spec_ok, abs_comps.
-  destruct (dir_str_facts comps Hne Hok) as (_ & _ & _ & Hs). rewrite Hs.
-  rewrite comps_of_dir_str by assumption.
-  destruct (expected fs name comps) as [[f p]|]; cbn; [|reflexivity].
+  intros G. rewrite (nearest _ _ _ _ G). unfold spec_ok.
+  destruct (expected fs name (abs_comps cwd start)) as [[f p]|]; cbn; [|reflexivity].
   now rewrite !String.eqb_refl.
 Qed.
 
-(** not found, full strength: no ancestor (root included) offers a candidate *)
-Theorem not_found fs cwd name comps :
-  guard_abs fs comps name = true -> expected fs name comps = None ->
-  load fs cwd name (dir_str comps) = NotFound.
-Proof.
-  intros G E. rewrite (load_abs _ _ _ _ G). rewrite expected_split in E.
-  now destruct (first_candidate fs name (anc_noroot comps (List.length comps))).
-Qed.
+Theorem not_found fs cwd name start :
+  guard_exists fs cwd start name = true -> expected fs name (abs_comps cwd start) = None ->
+  load fs cwd name start = NotFound.
+Proof. intros G E. now rewrite (nearest _ _ _ _ G), E. Qed.
 
-Lemma first_candidate_some fs name l c :
-  first_candidate fs name l = Some c ->
-  exists l1 d l2, l = l1 ++ d :: l2 /\ candidate fs name (dir_str d) = Some c /\
-                  forall d', In d' l1 -> candidate fs name (dir_str d') = None.
-Proof.
-  induction l as [|d l IH]; simpl; [discriminate|].
-  destruct (candidate fs name (dir_str d)) as [c'|] eqn:E.
-  - intros H; injection H as <-. exists [], d, l. repeat split; auto. intros d' [].
-  - intros H. destruct (IH H) as (l1 & d0 & l2 & -> & H1 & H2).
-    exists (d :: l1), d0, l2. repeat split; auto. intros d' [<-|Hd]; auto.
-Qed.
-
-Lemma anc_first fs name comps c : forall n,
-  first_candidate fs name (anc_noroot comps n) = Some c ->
-  exists j, 1 <= j <= n /\
+Lemma first_candidate_anc fs name comps c : forall n,
+  first_candidate fs name (ancestors_from comps n) = Some c ->
+  exists j, j <= n /\
     candidate fs name (dir_str (firstn j comps)) = Some c /\
     forall k, j < k <= n -> candidate fs name (dir_str (firstn k comps)) = None.
 Proof.
-  induction n as [|n IH]; cbn [anc_noroot first_candidate]; [discriminate|].
-  destruct (candidate fs name (dir_str (firstn (S n) comps))) as [c'|] eqn:Ec.
-  - intros H; injection H as ->. exists (S n). repeat split; [lia | lia | assumption |].
-    intros k Hk. lia.
-  - intros H. destruct (IH H) as (j & Hj & Hc & Hn). exists j. repeat split; [lia | lia | assumption |].
-    intros k Hk. destruct (Nat.eq_dec k (S n)) as [->|Hne]; [assumption | apply Hn; lia].
+  induction n as [|n IH]; cbn [ancestors_from first_candidate].
+  - destruct (candidate fs name (dir_str [])) as [c'|] eqn:E; [|discriminate].
+    intros H; injection H as ->. exists 0. split; [lia|]. split; [exact E|]. intros k Hk. lia.
+  - destruct (candidate fs name (dir_str (firstn (S n) comps))) as [c'|] eqn:Ec.
+    + intros H; injection H as ->. exists (S n). split; [lia|]. split; [assumption|]. intros k Hk. lia.
+    + intros H. destruct (IH H) as (j & Hj & Hc & Hn). exists j. split; [lia|]. split; [assumption|].
+      intros k Hk. destruct (Nat.eq_dec k (S n)) as [->|Hne]; [assumption | apply Hn; lia].
 Qed.
 
-(** whatever is loaded is the candidate of an ancestor and no nearer ancestor
-    offers one (never a farther candidate) -- holds with or without a root candidate *)
-Theorem loaded_is_nearest fs cwd name comps f p :
-  guard_abs fs comps name = true ->
-  load fs cwd name (dir_str comps) = Loaded f p ->
-  exists j, 1 <= j <= List.length comps /\
+(** never a farther candidate *)
+Theorem loaded_is_nearest fs cwd name start f p :
+  guard_exists fs cwd start name = true ->
+  load fs cwd name start = Loaded f p ->
+  let comps := abs_comps cwd start in
+  exists j, j <= List.length comps /\
     candidate fs name (dir_str (firstn j comps)) = Some (f, p) /\
     forall k, j < k <= List.length comps -> candidate fs name (dir_str (firstn k comps)) = None.
 Proof.
-  intros G H. rewrite (load_abs _ _ _ _ G) in H.
-  destruct (first_candidate fs name (anc_noroot comps (List.length comps))) as [[f' p']|] eqn:E;
-    [|discriminate]. injection H as -> ->.
-  now apply anc_first.
+  intros G H comps. rewrite (nearest _ _ _ _ G) in H. fold comps in H.
+  destruct (expected fs name comps) as [[f' p']|] eqn:E; [|discriminate]. injection H as -> ->.
+  now apply first_candidate_anc.
 Qed.
 
-(** the parent rule: project directory = directory of the module, one level
-    above the package directory *)
 Theorem parent_rule fs name d f p :
   candidate fs name d = Some (f, p) ->
   p = d /\ (f = child d (name ++ ".py") \/ f = child (child d name) "__init__.py").
@@ -416,71 +471,65 @@ Proof.
     intros H; injection H as <- <-. auto.
 Qed.
 
-(** * refutations *)
+(** the parent rule about the model's own answer (below the root; at the root
+    both parents are "/") *)
+Theorem parent_of_loaded fs cwd name start f p :
+  guard_exists fs cwd start name = true ->
+  load fs cwd name start = Loaded f p ->
+  (f = child p (name ++ ".py") /\ p = path_parent f) \/
+  (f = child (child p name) "__init__.py" /\ p = path_parent (path_parent f)).
+Proof.
+  intros G H. destruct (guard_exists_parts _ _ _ _ G) as [Hname _].
+  pose proof (abs_comps_ok cwd start) as Hok.
+  destruct (loaded_is_nearest fs cwd name start f p G H) as (j & Hj & Hc & _).
+  destruct (parent_rule fs name _ f p Hc) as [-> Hf].
+  set (d := firstn j (abs_comps cwd start)) in *.
+  assert (Hdok : comps_okb d = true) by now apply firstn_ok.
+  (* the facts of [body_at], read off a one-entry file system *)
+  assert (Hpy : comp_okb (name ++ ".py") = true) by now apply comp_okb_app.
+  destruct d as [|x l] eqn:Ed.
+  - change (dir_str []) with "/" in *.
+    assert (P1 : path_parent (child "/" (name ++ ".py")) = "/").
+    { change (child "/" (name ++ ".py")) with (dir_str [(name ++ ".py")%string]).
+      unfold path_parent. rewrite split_dir_str by (discriminate || (simpl; now rewrite Hpy)).
+      cbn [filter]. change (not_dot "") with true. cbv iota.
+      destruct (comp_okb_dots _ Hpy) as [Hd _]. apply String.eqb_neq in Hd. unfold not_dot. now rewrite Hd. }
+    assert (P2 : path_parent (dir_str [name]) = "/").
+    { unfold path_parent. rewrite split_dir_str by (discriminate || (simpl; now rewrite Hname)).
+      cbn [filter]. change (not_dot "") with true. cbv iota.
+      destruct (comp_okb_dots _ Hname) as [Hd _]. apply String.eqb_neq in Hd. unfold not_dot. now rewrite Hd. }
+    destruct Hf as [-> | ->]; [left; now rewrite P1 | right].
+    split; [reflexivity|]. change (child "/" name) with (dir_str [name]).
+    rewrite path_parent_child by (discriminate || reflexivity || (simpl; now rewrite Hname)). now rewrite P2.
+  - assert (Hd : x :: l <> []) by discriminate.
+    destruct Hf as [-> | ->].
+    + left. split; [reflexivity|]. now rewrite path_parent_child.
+    + right. split; [reflexivity|].
+      assert (Hd2ok : comps_okb ((x :: l) ++ [name]) = true) by (rewrite comps_okb_app, Hdok; simpl; now rewrite Hname).
+      rewrite (child_dir_str (x :: l) name) by assumption.
+      rewrite (path_parent_child ((x :: l) ++ [name])) by (assumption || reflexivity || discriminate).
+      rewrite <- (child_dir_str (x :: l) name) by assumption. now rewrite path_parent_child.
+Qed.
+
+(** * examples: the former findings now load what the specification expects *)
 Definition fs_root : fsys := mkFs [("/a", []); ("/", ["tasks.py"])] [].
+Definition fs_rel : fsys := mkFs [("/w/d1", []); ("/w", ["tasks.py"]); ("/", [])] [].
+Definition fs_dotdot : fsys := mkFs [("/a/b", ["tasks.py"]); ("/a", []); ("/", [])] [].
 
-Lemma root_refutes :
-  guard_abs fs_root ["a"] "tasks" = true /\
-  load fs_root "/" "tasks" (dir_str ["a"]) = NotFound /\
-  expected fs_root "tasks" ["a"] = Some ("/tasks.py", "/") /\
-  spec_ok fs_root "/" (dir_str ["a"]) "tasks" (obs_of (load fs_root "/" "tasks" (dir_str ["a"]))) = false.
+Lemma former_findings_fixed :
+  load fs_root "/" "tasks" "/a" = Loaded "/tasks.py" "/" /\
+  load fs_rel "/w" "tasks" "d1" = Loaded "/w/tasks.py" "/w" /\
+  load fs_dotdot "/" "tasks" "/a/b/.." = NotFound /\
+  guard_exists fs_root "/" "/a" "tasks" = true /\ guard_exists fs_rel "/w" "d1" "tasks" = true /\
+  guard_exists fs_dotdot "/" "/a/b/.." "tasks" = true.
 Proof. repeat split. Qed.
 
-Definition fs_rel : fsys :=
-  mkFs [("/w/d1", []); ("/w", ["tasks.py"]); ("/", []); ("d1", [])] [].
-
-Lemma relative_refutes :
-  load fs_rel "/w" "tasks" "d1" = NotFound /\
-  expected fs_rel "tasks" (abs_comps "/w" "d1") = Some ("/w/tasks.py", "/w") /\
-  spec_ok fs_rel "/w" "d1" "tasks" (obs_of (load fs_rel "/w" "tasks" "d1")) = false.
-Proof. repeat split. Qed.
-
-(** non-vacuity: module shadowing a farther package, found from two levels below *)
 Definition fs_ex : fsys :=
   mkFs [("/p/q/r/s", []); ("/p/q/r", ["other.py"]); ("/p/q", ["tasks"; "tasks.py"]); ("/p", ["tasks"]); ("/", [])]
        ["/p/q/tasks/__init__.py"; "/p/tasks/__init__.py"].
 
 Lemma example_nearest :
-  guard_abs fs_ex ["p"; "q"; "r"; "s"] "tasks" = true /\ root_clear fs_ex "tasks" = true /\
+  guard_exists fs_ex "/" "/p/q/r/s" "tasks" = true /\
   load fs_ex "/" "tasks" "/p/q/r/s" = Loaded "/p/q/tasks.py" "/p/q" /\
-  load fs_ex "/" "tasks" "/p" = Loaded "/p/tasks/__init__.py" "/p".
-Proof. repeat split. Qed.
-
-(** the parent rule, about the model's own answer: the reported project
-    directory is Path(file).parent for a module and one level further up for a
-    package *)
-Theorem parent_of_loaded fs cwd name comps f p :
-  guard_abs fs comps name = true ->
-  load fs cwd name (dir_str comps) = Loaded f p ->
-  (f = child p (name ++ ".py") /\ p = path_parent f) \/
-  (f = child (child p name) "__init__.py" /\ p = path_parent (path_parent f)).
-Proof.
-  intros G H. destruct (guard_abs_parts _ _ _ G) as (Hne & Hok & Hname & _).
-  destruct (loaded_is_nearest fs cwd name comps f p G H) as (j & Hj & Hc & _).
-  destruct (parent_rule fs name _ f p Hc) as [-> Hf].
-  set (d := firstn j comps) in *.
-  assert (Hd : d <> []).
-  { unfold d. destruct j as [|j]; [lia|]. now apply firstn_S_nonempty. }
-  assert (Hdok : comps_okb d = true) by now apply firstn_ok.
-  assert (Hpy : comp_okb (name ++ ".py") = true) by now apply comp_okb_app.
-  destruct Hf as [-> | ->].
-  - left. split; [reflexivity|]. now rewrite path_parent_child.
-  - right. split; [reflexivity|].
-    assert (Hd2 : d ++ [name] <> []) by (destruct d; discriminate).
-    assert (Hd2ok : comps_okb (d ++ [name]) = true) by (rewrite comps_okb_app, Hdok; simpl; now rewrite Hname).
-    rewrite (child_dir_str d name) by assumption.
-    rewrite (path_parent_child (d ++ [name])) by (assumption || reflexivity).
-    rewrite <- (child_dir_str d name) by assumption. now rewrite path_parent_child.
-Qed.
-
-(** F-C20c: a start path with a ".." component makes the walk examine the
-    directory *before* the ".." -- not an ancestor of the start -- first *)
-Definition fs_dotdot : fsys :=
-  mkFs [("/a/b/..", []); ("/a/b", ["tasks.py"]); ("/a", []); ("/", [])] [].
-
-Lemma dotdot_refutes :
-  load fs_dotdot "/" "tasks" "/a/b/.." = Loaded "/a/b/tasks.py" "/a/b" /\
-  abs_comps "/" "/a/b/.." = ["a"] /\
-  expected fs_dotdot "tasks" (abs_comps "/" "/a/b/..") = None /\
-  spec_ok fs_dotdot "/" "/a/b/.." "tasks" (obs_of (load fs_dotdot "/" "tasks" "/a/b/..")) = false.
+  load fs_ex "/p/q" "tasks" "r/../../x/.." = Loaded "/p/tasks/__init__.py" "/p".
 Proof. repeat split. Qed.
